@@ -123,3 +123,85 @@ Proof.
   intros K. specialize (NL e He). rewrite K in NL. discriminate.
 Qed.
 
+(* ================= what does NOT hold: three witnesses ================= *)
+Fixpoint mrun (c : cfg) (ts : list nat) (s : state) : option state :=
+  match ts with
+  | [] => Some s
+  | t :: r => match mstep c s t [] with Some (s', _, _) => mrun c r s' | None => None end
+  end.
+Lemma mrun_reach c ts : forall s s' s0, mrun c ts s = Some s' -> reach (mstep c) s0 s -> reach (mstep c) s0 s'.
+Proof.
+  induction ts as [|t r IH]; intros s s' s0 H R; cbn in H; [injection H as <-; exact R|].
+  destruct (mstep c s t []) as [[[s1 c1] si]|] eqn:M; [|discriminate]. eapply IH; [exact H|]. eapply reach_step; eauto.
+Qed.
+
+Lemma no_throw_iff c : has_throw c = false -> no_throw c.
+Proof.
+  unfold has_throw, no_throw. intros H. apply orb_false_iff in H. destruct H as [A B]. split; [apply Z.leb_gt in A; lia|].
+  apply Forall_forall. intros sc Hs. destruct (sc_throws sc) eqn:E; [reflexivity|].
+  exfalso. assert (existsb (fun sc => match sc_throws sc with [] => false | _ => true end) (c_stages c) = true).
+  { apply existsb_exists. exists sc. split; [exact Hs | rewrite E; reflexivity]. } congruence.
+Qed.
+
+(* (1) leak: 1 pool thread, 2 items, one sink with limit 4 that throws at item 1.  Item 0's task sits in the pool when the
+   exception is captured; the cancelled wrapper skips it (event kind 8): its payload is never destroyed.  pipeline() returns. *)
+Definition c_leak : cfg := CFG 1 32 1 2 (-1) [SC 4 false [] [1]] false [(true, 0)].
+Definition s_leak : state := fst (fst (run_pipe 60 c_leak (repeat 0 60))).
+Lemma leak_facts :
+  done (sh s_leak) = true /\ result (sh s_leak) = Some 1001 /\ pout (sh s_leak) = 0 /\
+  existsb (fun e => e_kind e =? 8) (log (sh s_leak)) = true.
+Proof. vm_compute. repeat split; reflexivity. Qed.
+Theorem leak_refuted :
+  has_throw c_leak = true /\
+  exists s, reach (mstep c_leak) (init c_leak) s /\ done (sh s) = true /\ result (sh s) = Some 1001 /\
+            exists e, In e (log (sh s)) /\ e_kind e = 8.
+Proof.
+  split; [reflexivity|]. exists s_leak. split; [unfold s_leak; apply run_pipe_reach|]. pose proof leak_facts as (A & B & _ & D).
+  split; [exact A|]. split; [exact B|].
+  apply existsb_exists in D. destruct D as (e & He & Ke). exists e. split; [exact He | apply Z.eqb_eq; exact Ke].
+Qed.
+
+(* (2) hang: 2 generator instances, 1 item, a serial sink that throws.  The first instance and the throwing task run before the
+   second instance is popped; the cancelled wrapper skips the second instance, whose CompletionGuard therefore never counts the
+   latch down: the caller sleeps in completion_->wait(0) for ever. *)
+Definition c_hang : cfg := CFG 2 64 2 1 (-1) [SC 1 false [] [0]] false [(true, 0)].
+Definition s_hang : state := fst (fst (run_pipe 60 c_hang (repeat 0 60))).
+Lemma hang_facts :
+  result (sh s_hang) = None /\ done (sh s_hang) = false /\ compl (sh s_hang) = 1 /\ bag (sh s_hang) = [] /\ pout (sh s_hang) = 0 /\
+  map th_kind (threads s_hang) = [3; 1] /\ map stack (threads s_hang) = [[FMain MBlocked]; [FWorker true]].
+Proof. vm_compute. repeat split; reflexivity. Qed.
+Lemma hang_stuck t ch s' ch' site : mstep c_hang s_hang t ch = Some (s', ch', site) -> s' = s_hang.
+Proof.
+  intros H. destruct t as [|[|[|t]]]; vm_compute in H; try discriminate.
+  injection H as <- _ _. vm_compute. reflexivity.
+Qed.
+Theorem hang_refuted :
+  has_throw c_hang = true /\ reach (mstep c_hang) (init c_hang) s_hang /\ result (sh s_hang) = None /\
+  forall s', reach (mstep c_hang) s_hang s' -> s' = s_hang.
+Proof.
+  split; [reflexivity|]. split; [unfold s_hang; apply run_pipe_reach|]. split; [apply hang_facts|].
+  intros s' R. induction R as [|s t ch s' ch' site R IH E]; [reflexivity|]. subst s. eapply hang_stuck; eauto.
+Qed.
+
+(* (3) escape: poolLoadFactor_ 0 (= a pool loaded by somebody else): the second generator instance runs inline inside execute()
+   on the caller, the generator throws, the exception leaves pipeline() through execute() while the first instance is still queued
+   and references the Pipe objects that are about to be destroyed *)
+Definition c_esc : cfg := CFG 3 0 3 3 0 [SC 1 false [] []] false [(true, 0)].
+Definition s_esc : option state := mrun c_esc [0; 0; 0; 0; 0; 0; 0]%nat (init c_esc).
+Lemma esc_facts :
+  match s_esc with
+  | Some s => map escaping (threads s) = [true; false] /\ pout (sh s) = 1 /\ bag (sh s) = [(0%nat, TGen)] /\ mstep c_esc s 0 [] = None
+  | None => False
+  end.
+Proof. vm_compute. repeat split; reflexivity. Qed.
+Theorem escape_reachable :
+  exists s, reach (mstep c_esc) (init c_esc) s /\ map escaping (threads s) = [true; false] /\ 0 < pout (sh s).
+Proof.
+  pose proof esc_facts as F. destruct s_esc as [s|] eqn:E; [|contradiction]. exists s. destruct F as (A & B & _).
+  split; [eapply mrun_reach; [exact E | apply reach_refl]|]. split; [exact A | lia].
+Qed.
+
+Theorem holds_except c s :
+  has_throw c = false -> (0 < nstages c)%nat -> reach (mstep c) (init c) s ->
+  (forall e, In e (log (sh s)) -> e_kind e <> 8 /\ e_kind e <> 11) /\ (forall r, result (sh s) = Some r -> r = -1).
+Proof. intros H. exact (no_leak_without_exceptions c s (no_throw_iff c H)). Qed.
